@@ -249,7 +249,16 @@ fn eval(run: &Run, c: &Cfg) -> Verdict {
     let cfg = c.clone();
     let secs = if run.quick() { 40.0 } else { 900.0 };
     let t0 = Instant::now();
-    let ex: Explored = explore(c.bound, u64::MAX, Instant::now() + Duration::from_secs_f64(secs), c.schedule.clone(), move || body(&cfg));
+    let deadline = Instant::now() + Duration::from_secs_f64(secs);
+    let ex: Explored = if c.schedule.is_none() && !run.quick() && c.bound >= 2 {
+        // big spaces: explore the subtrees below all 12-decision prefixes on 8 workers
+        crate::sched::explore_parallel(c.bound, 8, 12, deadline, |_w| {
+            let cfg = cfg.clone();
+            move || body(&cfg)
+        })
+    } else {
+        explore(c.bound, u64::MAX, deadline, c.schedule.clone(), move || body(&cfg))
+    };
     run.mc_transitions(ex.decisions);
     run.mc_validated(ex.executions);
     run.mc_states_bulk((0..ex.executions).map(|i| vkit::hash_of(&(c, i))));
@@ -340,6 +349,22 @@ pub fn run(run: &'static Run) {
     let mut per_case = PER_CASE.lock().unwrap().clone();
     per_case.sort();
     run.cov("explorations", per_case);
+
+    // engine self-test: the parallel (prefix-split) exploration must cover exactly the executions of the sequential one
+    if !run.is_replay() {
+        let cfg = Cfg { helper: "slice".into(), workers: 2, items: 3, fail_at: None, bound: 2, schedule: None };
+        let far = Instant::now() + Duration::from_secs(600);
+        let c1 = cfg.clone();
+        let seq = explore(2, u64::MAX, far, None, move || body(&c1));
+        let par = crate::sched::explore_parallel(2, 8, 10, far, |_w| {
+            let c2 = cfg.clone();
+            move || body(&c2)
+        });
+        run.cov("engine_selftest", format!("sequential executions={} outcomes={:?}; parallel executions={} outcomes={:?}", seq.executions, seq.outcomes, par.executions, par.outcomes));
+        if seq.executions != par.executions || seq.outcomes != par.outcomes || seq.failure.is_some() != par.failure.is_some() {
+            run.machinery_error(format!("parallel exploration differs from sequential: {} vs {} executions", seq.executions, par.executions));
+        }
+    }
 
     // InOrderIter: pure, all permutations of <= 6 sequence ids, with an error at each position
     in_order(run);
